@@ -1,7 +1,29 @@
-(* regenerated lexer constants = the model's (tools/pygen/gen_consts.py -> Gen/LexConst.v) *)
-From JP Require Import Base.Json Model.Regex Model.Tokens Model.Lex Gen.LexConst.
-Theorem lex_regexes_regenerated :
-  g_RE_WHITESPACE = RE_WHITESPACE /\ g_RE_PROPERTY = RE_PROPERTY /\ g_RE_INDEX = RE_INDEX /\ g_RE_INT = RE_INT /\
-  g_RE_FLOAT = RE_FLOAT /\ g_RE_FUNCTION_NAME = RE_FUNCTION_NAME /\ g_ESCAPES = ESCAPES.
-Proof. repeat split; reflexivity. Qed.
+(* The lexer's patterns and escape set as lex.py builds them on this run (Gen/LexConst.v, regenerated) are the model's,
+   up to the spelling of character classes and the order of the escape set: the same matcher results on every text. *)
+From JP Require Import Base.Json Model.Regex Model.Tokens Model.Lex Gen.LexConst Proofs.RegexNorm.
 
+Definition lex_tables_agree : Prop :=
+  (forall s, re_match g_RE_WHITESPACE s = re_match RE_WHITESPACE s) /\
+  (forall s, re_match g_RE_PROPERTY s = re_match RE_PROPERTY s) /\
+  (forall s, re_match g_RE_INDEX s = re_match RE_INDEX s) /\
+  (forall s, re_match g_RE_INT s = re_match RE_INT s) /\
+  (forall s, re_match g_RE_FLOAT s = re_match RE_FLOAT s) /\
+  (forall s, re_match g_RE_FUNCTION_NAME s = re_match RE_FUNCTION_NAME s) /\
+  (forall c, existsb (N.eqb c) g_ESCAPES = existsb (N.eqb c) ESCAPES).
+
+Lemma existsb_same (a b : list N) :
+  forallb (fun x => existsb (N.eqb x) b) a = true -> forallb (fun x => existsb (N.eqb x) a) b = true ->
+  forall c, existsb (N.eqb c) a = existsb (N.eqb c) b.
+Proof.
+  intros H1 H2 c. rewrite forallb_forall in H1, H2.
+  destruct (existsb (N.eqb c) a) eqn:Ea.
+  - apply existsb_exists in Ea as [x [Hx Ex]]. apply N.eqb_eq in Ex. subst x. symmetry. exact (H1 c Hx).
+  - destruct (existsb (N.eqb c) b) eqn:Eb; [|reflexivity].
+    apply existsb_exists in Eb as [x [Hx Ex]]. apply N.eqb_eq in Ex. subst x. rewrite (H2 c Hx) in Ea. discriminate.
+Qed.
+
+Theorem lex_tables_regenerated : lex_tables_agree.
+Proof.
+  unfold lex_tables_agree. repeat split; try (apply same_norm_same_match; vm_compute; reflexivity).
+  apply existsb_same; vm_compute; reflexivity.
+Qed.
